@@ -805,6 +805,24 @@ func c16Compile(c *Ctx, pool *Pool, i int, thorough bool) error {
 		if len(cc.spell) > 0 {
 			c.ev.Fire("argv_unclean_dir_spelling", 1)
 		}
+		// an output directory that is a symlink to a directory elsewhere in the
+		// sandbox: the files must arrive behind the link
+		var links []DiskEntry
+		if !shared && r.Chance(1, 5) {
+			t := ts[r.Intn(len(ts))]
+			if cc.dirs[t] != "." {
+				if _, respelled := cc.spell[t]; !respelled {
+					link := cc.dirs[t]
+					realDir := "store/" + t + "_real"
+					depth := strings.Count(link, "/")
+					links = append(links, DiskEntry{Path: realDir, Kind: "dir"}, DiskEntry{Path: link, Kind: "symlink", Target: strings.Repeat("../", depth) + realDir})
+					cc.spell[t] = link
+					cc.dirs[t] = realDir
+					cc.stale = false
+					c.ev.Fire("disk0_symlinked_output_dir", 1)
+				}
+			}
+		}
 		if shared {
 			c.ev.Fire("disk0_shared_output_dir", 1)
 		}
@@ -818,6 +836,7 @@ func c16Compile(c *Ctx, pool *Pool, i int, thorough bool) error {
 		}
 		disk := []DiskEntry{{Path: "in.dsl", Kind: "file", Data: []byte(text), AgeSec: dslAge}}
 		disk = append(disk, unrelated...)
+		disk = append(disk, links...)
 		if cc.stale {
 			c.ev.Fire("disk0_stale_files", 1)
 			for _, st := range ref.Steps {
@@ -831,7 +850,7 @@ func c16Compile(c *Ctx, pool *Pool, i int, thorough bool) error {
 		} else if r.Chance(1, 2) {
 			c.ev.Fire("disk0_existing_dirs", 1)
 			for _, t := range ts {
-				if cc.dirs[t] != "." {
+				if cc.dirs[t] != "." && !strings.HasPrefix(cc.dirs[t], "store/") {
 					disk = append(disk, DiskEntry{Path: cc.dirs[t], Kind: "dir"})
 				}
 			}
@@ -961,10 +980,14 @@ func checkCompile(ref *Resp, o *CLIOutcome, cc *compileCase) *c16Viol {
 		if op.Escaped || strings.HasPrefix(op.Path, "OUTSIDE:") {
 			return &c16Viol{"escape", fmt.Sprintf("compile issued a write-class operation outside the sandbox: %s %s", op.Op, op.Path), nil}
 		}
-		if _, ok := expected[op.Path]; ok {
+		where := op.Path
+		if op.Real != "" {
+			where = op.Real // symlinks resolved: where the operation really lands
+		}
+		if _, ok := expected[where]; ok {
 			continue
 		}
-		if allowedDir(op.Path) && strings.HasPrefix(op.Op, "mkdir") {
+		if allowedDir(where) && strings.HasPrefix(op.Op, "mkdir") {
 			continue
 		}
 		return &c16Viol{"write-elsewhere", fmt.Sprintf("compile issued a write-class operation outside the generators' file set: %s %s", op.Op, op.Path), nil}
